@@ -7,7 +7,25 @@ COMMON_ASSUMPTIONS = [
 ]
 
 
-def std(pkg, qprop, tprop, fuzz=None, grid_shards_thorough=1, level="exploration", engine=None, extra=None):
+# The "procs" build variant: the same binary in a second process that steps through GOMAXPROCS settings
+# (vk.procsStep), because a library function may cut its input into per-CPU chunks when more than one
+# scheduler thread is available; the ordinary process runs with GOMAXPROCS=1. Huge inputs (TestLast) and
+# the committed regression cases stay with the ordinary process.
+PROCS_LIST = "2,3,16,5,32,7,4,12,24,6,33,8,17,64"
+
+
+def procs_variant(qprop, tprop, tags=None, **kw):
+    v = dict(name="procs", env={"VERIF_PROCS": PROCS_LIST, "GOMAXPROCS": "4"}, replay=False, skip_last=True,
+             main_regex="^(TestColdStart|TestFirst|TestGrid|TestProp)$",
+             quick=dict(prop=max(qprop // 2, 1), prop_shards=1, grid_shards=1, timeout=300),
+             thorough=dict(prop=max(tprop // 4, 1), prop_shards=4, grid_shards=1, timeout=3600))
+    if tags:
+        v["tags"] = tags
+    v.update(kw)
+    return v
+
+
+def std(pkg, qprop, tprop, fuzz=None, grid_shards_thorough=1, level="exploration", engine=None, extra=None, procs=False):
     d = dict(
         pkg=pkg,
         level=level,
@@ -20,6 +38,9 @@ def std(pkg, qprop, tprop, fuzz=None, grid_shards_thorough=1, level="exploration
         d["thorough"]["fuzz"] = dict(seconds=fuzz, target="FuzzProp")
     if extra:
         d.update(extra)
+    if procs:
+        d["variants"] = list(d.get("variants") or [dict(name="rel")]) + [procs_variant(qprop, tprop)]
+        d["engine"] += " + a second process stepping through GOMAXPROCS settings"
     return d
 
 
@@ -32,6 +53,7 @@ PROPS = {
             dict(name="race", tags="verif", race=True, fallback_untagged=True, env={"GORACE": "halt_on_error=1 exitcode=66"},
                  quick=dict(prop=50, prop_shards=1, grid_shards=1, timeout=300),
                  thorough=dict(prop=200, prop_shards=16, grid_shards=1, timeout=3600)),
+            procs_variant(6000, 20000, tags="verif", fallback_untagged=True),
         ])),
     "C07": std("c07", 6000, 8000, fuzz=60, level="fault_enumeration", extra=dict(engine="rapid + per-frame fault-point enumeration + gofuzz")),
     "C06": std("c06", 3000, 60000, fuzz=45, extra=dict(engine="rapid (stream model + hand-written wire encoder) + table + gofuzz")),
@@ -40,29 +62,30 @@ PROPS = {
         # size.Of walks values through reflect; the thorough tier repeats the run under the second installed toolchain
         variants=[dict(name="rel"),
                   dict(name="go126", go="go1.26.8", optional=True, tiers=["thorough"],
-                       thorough=dict(prop=20000, prop_shards=16, grid_shards=1, timeout=3600))])),
+                       thorough=dict(prop=20000, prop_shards=16, grid_shards=1, timeout=3600)),
+                  procs_variant(5000, 200000)])),
     "C18": std("c18", 5000, 600000, fuzz=45, extra=dict(engine="rapid stateful (model-based histories with injected faults) + gofuzz over the same history generator")),
-    "C16": std("c16", 5000, 15000, fuzz=45),
-    "C17": std("c17", 5000, 50000, fuzz=45),
+    "C16": std("c16", 5000, 15000, procs=True, fuzz=45),
+    "C17": std("c17", 5000, 50000, procs=True, fuzz=45),
     "C09": std("c09", 20000, 400000, fuzz=45, extra=dict(
         # bitstr.StrCmpUpto converts a string header with unsafe: what it reads next to the header depends on the
         # compiler's frame layout, so the thorough tier repeats grid + rapid under the second installed toolchain
         variants=[dict(name="rel"),
                   dict(name="go126", go="go1.26.8", optional=True, tiers=["thorough"],
                        thorough=dict(prop=50000, prop_shards=16, grid_shards=1, timeout=3600))])),
-    "C08": std("c08", 10000, 40000, fuzz=30),
+    "C08": std("c08", 10000, 40000, procs=True, fuzz=30),
     "C15": std("c15", 2000, 12000, fuzz=60, extra=dict(engine="rapid stateful (model-based histories) + gofuzz over the same history generator")),
-    "C12": std("c12", 10000, 100000, fuzz=30),
-    "C14": std("c14", 5000, 150000, fuzz=45),
-    "C13": std("c13", 5000, 100000, fuzz=45),
-    "C11": std("c11", 20000, 500000, fuzz=45),
-    "C04": std("c04", 6000, 55000, fuzz=45, grid_shards_thorough=16),
+    "C12": std("c12", 10000, 100000, procs=True, fuzz=30),
+    "C14": std("c14", 5000, 150000, procs=True, fuzz=45),
+    "C13": std("c13", 5000, 100000, procs=True, fuzz=45),
+    "C11": std("c11", 20000, 500000, procs=True, fuzz=45),
+    "C04": std("c04", 6000, 55000, procs=True, fuzz=45, grid_shards_thorough=16),
     "C10": std("c10", 20000, 2000000, fuzz=30),
     "C05": std("c05", 20000, 20000, grid_shards_thorough=16, extra=dict(
         engine="exhaustive enumeration + rapid", exhaustive_tiers=["thorough"],
         thorough=dict(prop=20000, prop_shards=1, grid_shards=16, timeout=3600))),
-    "C01": std("c01", 3000, 20000, fuzz=45, grid_shards_thorough=16),
-    "C02": std("c02", 3000, 20000, fuzz=45, grid_shards_thorough=16),
+    "C01": std("c01", 3000, 20000, procs=True, fuzz=45, grid_shards_thorough=16),
+    "C02": std("c02", 3000, 20000, procs=True, fuzz=45, grid_shards_thorough=16),
     "C03": std("c03", 20000, 600000, fuzz=45, grid_shards_thorough=16, extra=dict(
         engine="rapid+grid+gofuzz (release and -tags debug builds)",
         variants=[dict(name="rel"), dict(name="debug", tags="debug", thorough=dict(prop=150000, prop_shards=16, grid_shards=16, timeout=3600, fuzz=dict(seconds=30, target="FuzzProp")))],
